@@ -1,0 +1,17 @@
+// SPDX-FileCopyrightText: 2026 The Pion community <https://pion.ly>
+// SPDX-License-Identifier: MIT
+
+//go:build verif
+
+package cc
+
+// Machine-checked contracts (comment-only; read by /verif/govc, never compiled into a normal build).
+//
+// Properties C01, C02: the congestion-control interceptor's RTCP reader hands the caller exactly what the wrapped
+// reader returned; the estimator works on a private copy of the bytes that were read.
+//@ func (*Interceptor).BindRTCPReader$1
+//@   modifies *
+//@   ensures read_once: calls("reader.Read") == 1 && callarg("reader.Read", 0) == b && callarg("reader.Read", 1) == a
+//@   ensures read_error_returned: callres("reader.Read", 2) != nil ==> result0 == 0 && result2 == callres("reader.Read", 2) && calls("c.estimator.WriteRTCP") == 0
+//@   ensures same_length: result2 == nil ==> result0 == callres("reader.Read", 0)
+//@   ensures estimator_fed_at_most_once: calls("c.estimator.WriteRTCP") <= 1
